@@ -47,6 +47,8 @@ TRUSTED = [
     "the spy (harness/props/c19.py:_install_spies) replaces names in the importing modules' namespaces and in the "
     "extension modules' own dictionaries; it reads shapes/strides/values of the arguments before forwarding them unchanged",
     "grey_reconstruction_loop: the padding geometry (image shape, padding) is read from the caller's frame locals",
+    "the ASan objects are built with -DNDEBUG like the shipped ones (stage.ASAN_FLAGS extended at run time); an abort of the "
+    "library's own assert() and a hang in a fork-isolated call are not memory errors (counted)",
     "AddressSanitizer (gcc libasan) with detect_leaks=0 (CPython itself 'leaks'); leaks are OBSERVED separately, not "
     "proved: every kernel class is called 2000 times (skeletonize 133) in one process against the plain build and the "
     "growth of glibc's mallinfo2 bytes-in-use must stay below 8 bytes per call (unchanged tree: 0-300 bytes in total); "
@@ -56,6 +58,13 @@ TRUSTED = [
     "augmenting_row_reduction model: float comparisons are an oracle restricted to what finite costs can produce",
 ]
 ASSUMPTIONS = [
+    "KNOWN FINDINGS inside the quantifier, each attributed only by the owning property's rule (ids <Fxx>/C19): F22 convex_hull_ijv "
+    "coordinates > 46340 (int32 turn test wraps, a label can overrun its rows); F23 median_filter with columns + 2*radius + 1 >= "
+    "1573248 (32-bit scratch size wraps); F26 emd_hat_int32 on zero-length histograms with a flow type; F20 (next line). The "
+    "index-safety theorems apply to the compiled code inside these input bounds only",
+    "other narrow C types (int32 / uint32 flat indices, int strides, unsigned int heap capacity * width): they wrap only from 2^30 "
+    "(grey_reconstruction: 2 planes, int32 links) / 2^31 pixels, rows or triples on, i.e. > 16 GB of input - treated as a resource "
+    "bound outside the quantifier; uint16 histogram counts wrap VALUES (window > 65535 pixels), never indices (table in reports/C19.md)",
     "KNOWN FINDING F20 (inside the quantifier): memory safety of _lapjv.pyx augment fails on maximally sparse problems with "
     "forced expensive pairs; C01's generator class `forced-expensive` and corpus/C01/a_f20_sentinel.json are part of C19's "
     "streams (plain build, ASan build, boundary monitor), each such case fork-isolated; attribution by C01's two model variants",
@@ -117,14 +126,25 @@ KERNEL_STATUS = {
     "_all_connected_components": ("Full: C19_all_connected_components_safe", "kernel_pre_acc", ""),
     "fill_labeled_holes_loop": ("Full: C19_fill_labeled_holes_loop_safe", "kernel_pre_fill", ""),
     "trace_outlines": ("Full: C19_trace_outlines_safe", "kernel_pre_trace", ""),
-    "convex_hull_ijv": ("Full for the in-place WRITES: C19_convex_hull_write_bound (C02's model + C02_hull_no_overflow)",
-                        "kernel_pre_hull", "the reads of the buffer walk (C02's model uses total accessors)"),
+    "convex_hull_ijv": ("Full for the in-place WRITES in exact arithmetic: C19_convex_hull_write_bound (C02's model + "
+                        "C02_hull_no_overflow); for the compiled int32 turn test: C19_convex_hull_label_write_bound_as_written, "
+                        "INPUT BOUND coordinates <= 46340 (M*M < 2^31, C02_wrap_transfer). Beyond it: known finding F22 (a "
+                        "repeated vertex overruns the label's rows; C19_reexp_C02_convex_wrap_refuted)",
+                        "kernel_pre_hull", "the reads of the buffer walk (C02's model uses total accessors); F22 class "
+                        "fork-isolated, attributed by C02's as-written model"),
     "median_filter": ("Full, piecewise: C19_median_model_safe (C07's invariant carries every array size; column step), "
                       "C19_median_pre_indices, C19_median_hist_indices, C19_median_pixel_offset",
-                      "kernel_pre_median", "no single end-to-end bounds-checked model; malloc failure path"),
+                      "kernel_pre_median; the theorems speak about the real scratch block for INPUT BOUND columns + 2*radius + 1 "
+                      "< 1573248 (C19_reexp_C07_alloc_size_exact_below); from there on: known finding F23 (32-bit `unsigned int "
+                      "memory_size` wraps, C19_reexp_C07_alloc_size_wrap_refuted)",
+                      "no single end-to-end bounds-checked model; malloc failure path (memset before the NULL check); F23 "
+                      "class fork-isolated, attributed by C07's alloc_wraps"),
     "emd_hat_int32": ("Full for the array copies: C19_emd_pre_copies_safe; heap / position table of min_cost_flow.hpp: "
                       "C10's line-level theorems re-exported (C19_reexp_C10_heap_*)", "kernel_pre_emd",
-                      "the other C++ containers of FastEMD (std::vector / std::list indexing in emd_hat_impl.hpp, flow_utils.hpp)"),
+                      "the other C++ containers of FastEMD (std::vector / std::list indexing in emd_hat_impl.hpp, flow_utils.hpp); "
+                      "INPUT BOUND non-empty histograms: zero-length p, q with a flow type = known finding F26 (vf[0] of an empty "
+                      "vector), fork-isolated, attributed by len(p) == len(q) == 0; C10's int32-overflow classes (F21 / F25: hangs, "
+                      "library assert aborts) are counted as 'no memory error'"),
 }
 
 
@@ -1337,7 +1357,10 @@ MANIFEST = {
                    "every recorded kernel call; the behaviour of the compiled object is observed (address-sanitised "
                    "build over the generators of C01-C08, C10, C15), not proved"),
     "level_note": ("not expressible in the model: malloc/realloc failure, int32 wrap of flat indices beyond 2^31 "
-                   "elements, the C++ containers of FastEMD outside the heap, Cython buffer unpacking; not proved: that "
+                   "elements, the C++ containers of FastEMD outside the heap, Cython buffer unpacking. INPUT BOUNDS under which "
+                   "the theorems speak about the compiled code: hull coordinates <= 46340 (beyond: F22), median columns + "
+                   "2*radius + 1 < 1573248 (beyond: F23), non-empty EMD histograms (F26), lapjv inputs on which the sentinel "
+                   "model does not starve (F20); flat sizes below 2^30 / 2^31 elements. Not proved: that "
                    "augment's search always returns - it is FALSE for the kernel as written: known finding F20 (sentinel "
                    "inf = sum(c)+1 too small, p_scan[low] read past up, segfault inside the quantifier; "
                    "C19_augment_scan_nonempty_refuted), propagate's pixel loop, the reads of "
